@@ -260,15 +260,17 @@ def nextPrefix (p : List Nat) : Option (List Nat) :=
   | some e => if validUtf8 e then some e else none
   | none => none
 
-/-- `MetadataSlab::scan(prefix)` lists key `k` of the slab: the empty prefix reads every shard; any
-    other prefix reads the ONE shard of its first byte and there the range `prefix .. end_key`, or
-    `prefix ..` (THE REST OF THE SHARD) when `next_prefix` is `None` -/
+/-- `MetadataSlab::scan(prefix)` lists key `k` of the slab (repo 27855097): the empty prefix reads
+    every shard; any other prefix reads the ONE shard of its first byte and there the range
+    `prefix .. end_key`, or - when `next_prefix` is `None` - `range(prefix ..)` taken WHILE the key
+    starts with the prefix (on the sorted shard that is the filter:
+    `ScanProps.take_while_on_sorted_range_is_the_prefix_filter`) -/
 def mdMatch (p : List Nat) (k : Key) : Bool :=
   if p = [] then true else
   decide (shardOf k.bytes = shardOf p) &&
     (match nextPrefix p with
      | some e => bleq p k.bytes && blt k.bytes e
-     | none => bleq p k.bytes)
+     | none => bleq p k.bytes && isPfx p k.bytes)
 
 /-- `SlabRouter::scan`: metadata shard(s), then entity index, then cache ring (no yield point
     between the three reads: one step at the granularity of the hooks); a `HashSet` in the code -/
@@ -276,22 +278,20 @@ def scanNow (s : Store) (p : List Nat) : List Key :=
   (s.md.map (·.1)).filter (mdMatch p) ++ (liveKeys s.vocab).filter (pmatch p)
     ++ (s.cache.map (·.1)).filter (pmatch p)
 
-/-- NOT the code: the repair proposed in `proposed/C11-scan-prefix-without-successor.diff`
-    (`range(prefix..).take_while(|(k, _)| k.starts_with(prefix))` where there is no end key; on
-    the sorted shard that is the filter, see `ScanLemmas.takeWhile_pfx_eq_filter`) -/
-def mdMatchFixed (p : List Nat) (k : Key) : Bool :=
+/-- THE CODE BEFORE 27855097: without an end key, `range(prefix ..)` - THE REST OF THE SHARD -/
+def mdMatchOld (p : List Nat) (k : Key) : Bool :=
   if p = [] then true else
   decide (shardOf k.bytes = shardOf p) &&
     (match nextPrefix p with
      | some e => bleq p k.bytes && blt k.bytes e
-     | none => bleq p k.bytes && isPfx p k.bytes)
+     | none => bleq p k.bytes)
 
-def scanNowFixed (s : Store) (p : List Nat) : List Key :=
-  (s.md.map (·.1)).filter (mdMatchFixed p) ++ (liveKeys s.vocab).filter (pmatch p)
+def scanNowOld (s : Store) (p : List Nat) : List Key :=
+  (s.md.map (·.1)).filter (mdMatchOld p) ++ (liveKeys s.vocab).filter (pmatch p)
     ++ (s.cache.map (·.1)).filter (pmatch p)
 
-/-- a prefix on which `MetadataSlab::scan` answers by `starts_with`: the empty one, or a string
-    (`&str`: UTF-8) whose `next_prefix` exists -/
+/-- a prefix on which the code before 27855097 answered by `starts_with`: the empty one, or a
+    string (`&str`: UTF-8) whose `next_prefix` exists -/
 def boundedPrefix (p : List Nat) : Bool := p.isEmpty || (validUtf8 p && (nextPrefix p).isSome)
 
 /-- first step of `SlabRouter::put` (runs at `store.put`, or at `router.put_durable.after_log`) -/
@@ -684,14 +684,14 @@ def Op.nonDurable : Op → Bool
   | .putD .. | .delD .. => false
   | _ => true
 
-/-- every scan of the program has a prefix with an end key (`boundedPrefix`); on the others the
-    code over-returns, see `ScanProps.scan_prefix_without_successor_witness` -/
-def Op.scanBounded : Op → Bool
-  | .scan p => boundedPrefix p
+/-- every scan prefix of the operation is a string (`&str`: UTF-8) - well-formedness of the model's
+    input, every Rust caller satisfies it -/
+def Op.scanStr : Op → Bool
+  | .scan p => validUtf8 p
   | _ => true
 
-/-- put / get / delete / exists, and scans whose prefix has an end key -/
-def Op.nonDurableBounded (op : Op) : Bool := op.nonDurable && op.scanBounded
+/-- put / get / delete / exists / scan (scan prefixes are strings) -/
+def Op.nonDurableStr (op : Op) : Bool := op.nonDurable && op.scanStr
 
 end Neumann.KV
 
